@@ -29,7 +29,7 @@ Proof. exact accrue_idempotent. Qed.
    Dv/Lv are deposits/liabilities at scale 2^96, Fv the fee buckets at scale 2^48. *)
 Theorem C06_credit_le_charge_partial :
   forall b pf now b', wf_bank b -> valid_curve b -> accrue_interest b pf now = Ok b' ->
-  exists irl, 0 <= irl /\ (b' = b \/ b_asv b' = b_asv b * (ONE + irl) / ONE \/ b_asv b' = b_asv b) /\
+  exists irl, 0 <= irl /\ ((b' = b /\ irl = 0) \/ b_asv b' = b_asv b * (ONE + irl) / ONE \/ (b_asv b' = b_asv b /\ irl = 0)) /\
   (Dv b' - Dv b) + (Fv b' - Fv b) * ONE <= (Lv b' - Lv b) + (b_tls b * b_lsv b / ONE + b_tls b + irl + 1).
 Proof. exact accrue_credit_le_charge. Qed.
 (* `_partial`: the opposite direction (borrowers are not over-charged beyond a similar allowance)
